@@ -297,7 +297,12 @@ func (x *Exec) dispatchCandidates(fr *Frame, st *State, ins ssa.Instruction, can
 		}
 		clo := &Closure{Fn: c}
 		for _, fv := range c.FreeVars {
-			clo.Binds = append(clo.Binds, x.freshVal(cst, "cap_"+fv.Name(), fv.Type()))
+			bv := x.freshVal(cst, "cap_"+fv.Name(), fv.Type())
+			if _, isPtr := fv.Type().Underlying().(*types.Pointer); isPtr {
+				// a captured variable is a live, allocated cell
+				x.assume(cst, Gt(bv.T, Int(0)))
+			}
+			clo.Binds = append(clo.Binds, bv)
 		}
 		v := x.callFunc(fr, cst, ins, c, args, clo, site)
 		if cst.pc != False {
@@ -403,14 +408,14 @@ func (x *Exec) doAppend(fr *Frame, st *State, ins ssa.Instruction, cc *ssa.CallC
 		srcRow := Select(h, sArr(s))
 		addRow := Select(h, sArr(add))
 		x.assume(st, Forall([]*Term{j}, [][]*Term{{Select(row, j)}}, And(
-			Implies(And(Ge(j, Int(0)), Lt(j, sLen(s))), Eq(Select(row, j), Select(srcRow, Add(sOff(s), j)))),
-			Implies(And(Ge(j, sLen(s)), Lt(j, newLen)), Eq(Select(row, j), Select(addRow, Add(sOff(add), Sub(j, sLen(s)))))))))
+			Implies(And(Ge(j, Int(0)), Lt(j, sLen(s))), Eq(Select(row, j), Select(srcRow, ix(sOff(s), j)))),
+			Implies(And(Ge(j, sLen(s)), Lt(j, newLen)), Eq(Select(row, j), Select(addRow, ix(sOff(add), Sub(j, sLen(s)))))))))
 		newCap := Fresh("appcap", "Int")
 		x.assume(st, Ge(newCap, newLen))
 		// in-place variant, also quantified
 		inRow := Fresh("inrow", arraySort("Int", es))
 		x.assume(st, Forall([]*Term{j}, [][]*Term{{Select(inRow, j)}}, Eq(Select(inRow, j),
-			Ite(And(Ge(j, Add(sOff(s), sLen(s))), Lt(j, Add(sOff(s), newLen))), Select(addRow, Add(sOff(add), Sub(j, Add(sOff(s), sLen(s))))), Select(srcRow, j)))))
+			Ite(And(Ge(j, Add(sOff(s), sLen(s))), Lt(j, Add(sOff(s), newLen))), Select(addRow, ix(sOff(add), Sub(j, Add(sOff(s), sLen(s))))), Select(srcRow, j)))))
 		st.setH(key, Ite(fits, Store(h, sArr(s), inRow), Store(h, freshArr, row)))
 		return Value{T: Ite(fits, Mk(sortSlice, sArr(s), sOff(s), newLen, sCap(s)), Mk(sortSlice, freshArr, Int(0), newLen, newCap))}
 	}
@@ -421,12 +426,12 @@ func (x *Exec) doAppend(fr *Frame, st *State, ins ssa.Instruction, cc *ssa.CallC
 	var elems []*Term
 	addRow := Select(h, sArr(add))
 	for i := 0; i < cnt; i++ {
-		elems = append(elems, Select(addRow, Add(sOff(add), Int(int64(i)))))
+		elems = append(elems, Select(addRow, ix(sOff(add), Int(int64(i)))))
 	}
 	// in place
 	inRow := Select(h, sArr(s))
 	for i, e := range elems {
-		inRow = Store(inRow, Add(Add(sOff(s), sLen(s)), Int(int64(i))), e)
+		inRow = Store(inRow, ix(sOff(s), Add(sLen(s), Int(int64(i)))), e)
 	}
 	hIn := Store(h, sArr(s), inRow)
 	// fresh array: copy of the old contents, then the new elements
@@ -435,7 +440,7 @@ func (x *Exec) doAppend(fr *Frame, st *State, ins ssa.Instruction, cc *ssa.CallC
 	j := BoundVar("q_j", "Int")
 	srcRow := Select(h, sArr(s))
 	x.assume(st, Forall([]*Term{j}, [][]*Term{{Select(row, j)}},
-		Implies(And(Ge(j, Int(0)), Lt(j, sLen(s))), Eq(Select(row, j), Select(srcRow, Add(sOff(s), j))))))
+		Implies(And(Ge(j, Int(0)), Lt(j, sLen(s))), Eq(Select(row, j), Select(srcRow, ix(sOff(s), j))))))
 	fr2 := row
 	for i, e := range elems {
 		fr2 = Store(fr2, Add(sLen(s), Int(int64(i))), e)
@@ -593,7 +598,7 @@ func (x *Exec) applyContract(fr *Frame, st *State, con *Contract, sig *types.Sig
 	for _, e := range con.Ensures {
 		posts = append(posts, env2.boolean(e.Expr))
 	}
-	st.pc = And(st.pc, And(posts...))
+	x.assumePC(st, And(posts...))
 	return res
 }
 
@@ -788,12 +793,16 @@ func (x *Exec) verifyFunction(con *Contract) {
 	for _, r := range con.Requires {
 		pres = append(pres, env.boolean(r.Expr))
 	}
-	st.pc = And(st.pc, And(pres...))
+	x.assumePC(st, And(pres...))
 	entry = st.clone()
 	// vacuity canary: the precondition must be satisfiable
 	x.obls = append(x.obls, &Obligation{Name: con.Func + "#vacuity[requires-sat]", Func: con.Func, Kind: "canary", Facts: x.facts[:len(x.facts):len(x.facts)], PC: st.pc, Goal: False, Props: con.Props})
 	if con.Trusted {
 		return
+	}
+	x.pendingRegions = x.modRegions(con, x.specEnvFor(con, fn.Signature, fn.Pkg.Pkg, args, entry, entry))
+	if x.pendingRegions == nil {
+		x.pendingRegions = []modRegion{}
 	}
 	_, _, fr := x.runFunction(st, fn, args, nil, nil, con, "")
 	// postconditions at each return site
@@ -962,9 +971,9 @@ func (x *Exec) runGhost(st *State, env *SpecEnv, stmts []*GhostStmt, what, site 
 				lab = fmt.Sprintf("L%d", s.Line)
 			}
 			x.oblige(st, "mon", lab, site, env.boolean(s.Expr), what)
-			st.pc = And(st.pc, env.boolean(s.Expr))
+			x.assumePC(st, env.boolean(s.Expr))
 		case "assume":
-			st.pc = And(st.pc, env.boolean(s.Expr))
+			x.assumePC(st, env.boolean(s.Expr))
 		case "assign":
 			v := env.eval(s.Expr)
 			if _, ok := ghostSorts[s.Name]; !ok {
